@@ -690,13 +690,16 @@ class C18(fw.Property):
     design_ref = "DESIGN.md section 15 (C18)"
     technique = ("Coq invariant proofs over an executable model of the shutdown slice of the message layer (TokenManager, MessageManager, "
                  "Request generator, event-loop timers); differential correspondence against the real stack on a virtual-time loop")
-    level_text = ("Theorems (closed under the global context) over Model/C18.v, for every history of peer datagrams, timers, client requests, handler actions, "
-                  "transport errors: the Shutdown step fails every outstanding request / observation with a library error, cancels every running handler and returns; "
-                  "afterwards no in-scope event (any timer, late handler completion, new request, cancellation, transport error) makes the context send or raise; "
-                  "new requests fail at once with LibraryShutdown; eventually no timer is left; a second context is not touched. The model is tied to the code by "
-                  "running both on the same event scripts (shutdown at every position of busy templates + random walks generated against the live stack).")
+    level_text = ("Theorems (closed under the global context) over Model/C18.v. Main theorem C18_shutdown_at_any_moment: for every history before ++ [Shutdown] ++ after from a fresh context "
+                  "(before: any peer datagrams, timers, client requests, handler actions, transport errors; after: any timer, lapse of time, late handler completion, new request, cancellation, "
+                  "transport error), with conditions on the event lists only (shutdown called once, distinct request labels, < 2^64 tokens): the Shutdown step cancels every handler, fails every "
+                  "outstanding request / observation with a library error and returns; every request ever submitted is settled by then; afterwards nothing is sent, raised, delivered or started; new "
+                  "requests fail at once with LibraryShutdown; the remaining timers run out. Supporting invariants proved for all reachable states: every cancellable timer is referenced from "
+                  "_active_exchanges/_piggyback_opportunities (NSTART bookkeeping), every unsettled request is in outgoing_requests, every dedup-expiry timer finds its key. Two contexts are independent. "
+                  "The model is tied to the code by running both on the same event scripts (shutdown at every position of busy templates + random walks generated against the live stack).")
     level_note = ("Runtime partial: SHUTDOWN_TIMEOUT of asyncio.wait is exercised by the oracle only (hung-transport scenario), garbage collection and real sockets after close() are outside the model. "
                   "Datagrams delivered to dispatch_message after shutdown are out of scope (udp6 closes its socket synchronously inside shutdown); a second Context.shutdown() is out of scope. "
+                  "A running handler is identified with its incoming_requests entry by the model. "
                   "Model abstractions: header-level messages, no multicast, no No-Response, default transport tuning, exceptions not propagated beyond the raising callback.")
     rule = ("script stream: an event script (peer datagram / fire next timer / advance clock / client request / cancel / handler respond or raise / transport error / shutdown) is run on the real "
             "Context+TokenManager+MessageManager over harness/simloop.py and on Model/C18.run; per step the datagrams on the wire (in order) and the application-visible outcomes are compared. "
